@@ -97,7 +97,7 @@ out = os.path.join(os.path.dirname(os.path.abspath(__file__)), 'verif_metatypes.
 json.dump([dict(classes=classes, inputFile='verif.h', outputRevision=68)], open(out, 'w'), indent=1)
 print('wrote', out, len(classes), 'classes')
 # the T* classes alone, to be loaded next to the bundled Qt 5 metatypes (gadget sub-bindings, real widgets)
-tonly = [c for c in classes if c['className'].startswith('T')]
+tonly = [c for c in classes if c['className'].startswith('T')] + [cls('Label1', supers=['QLabel']), cls('Widget2', supers=['QWidget'])]
 out2 = os.path.join(os.path.dirname(os.path.abspath(__file__)), 'verif_t_metatypes.json')
 json.dump([dict(classes=tonly, inputFile='verif.h', outputRevision=68)], open(out2, 'w'), indent=1)
 print('wrote', out2, len(tonly), 'classes')
